@@ -41,5 +41,30 @@ CLAIMS["C06"] = {
     "text": "Theorems: (table, decide +kernel over the whole tables) IERS-flagged built-in entries = entries loaded from data/leap-seconds.list = raw text of that file = NAIF DELTET/DELTA_AT (dates through the calendar), 28 entries 10..37 s increasing by one; SOFA entries cannot influence IERS-only lookups (any table, by induction); UTC->TAI adds exactly the step function of the IERS file for every canonical UTC duration, hence strictly increasing; UTC->TAI->UTC is the identity (proved for ANY table with increasing stamps and non-decreasing offsets, by induction, and for the Dur-level model of the shipped table); TAI->UTC strictly increasing on every instant with a UTC pre-image — PARTIAL inside inserted seconds (recorded finding D9b with a decided counterexample).",
     "note": "Trusted: Lean kernel + standard axioms; transcription of leap_seconds_with and the two UTC arms (validated by correspondence incl. every second around every leap second); tables regenerated from /repo each run. f64 time stamps/offsets are integer-valued with exact products (checked at generation). from_path's line grammar is modelled in the driver only (generated files), not proved.",
 }
+PROPS["C04"] = P(rule="epochs of the seven non-dynamical scales (and ET/TDB for the scale-preservation clause) from the epoch lattice x durations (lattice, small offsets, partners landing on bounds); ops + - += -= +Unit -Unit +f64(integer seconds) Epoch-Epoch (same and different scales) and the three algebraic identities; Epoch floor/ceil/round wrappers")
+CLAIMS["C04"] = {
+    "text": "Theorems (all canonical epochs/durations, all nine scales for the first three): e +/- d has the same scale and exactly the clamped elapsed time; +/- Unit likewise; + integer float seconds exact while the product k*1e9 is exact in binary64; (e+d)-e = d, (e+d)-d = e, e+(f-e) = f whenever no bound is hit; Epoch - Epoch in the same scale is the difference of elapsed times and across scales (uniform left operand) the clamped difference of the instants.",
+    "note": "Trusted: Lean kernel + standard axioms; the model of Epoch arithmetic is a thin wrapper over the Duration model (C01 theorems); correspondence validates the wrappers incl. +=/-=. Epoch + f64 beyond |k| ~ 4.6e9 s is inexact in binary64 (D19, inherent, outside the statement): the driver leaves it to the spec verdict 'no panic' only. Epoch floor/ceil/round inherit D1 (known finding).",
+}
+PROPS["C12"] = P(rule="pairs/triples over the seven non-dynamical scales: same instant in two scales, 1-2 ns apart, symmetric about the reference, +/-40 s across leap seconds, unrelated; ops == != < <= > >= cmp min max (inherent and Ord), sort, Range::contains, comparison after converting either operand")
+CLAIMS["C12"] = {
+    "text": "Theorems for every pair of epochs in {TAI,TT,UTC,GPST,GST,BDT,QZSST} at least 4 centuries inside the duration bounds: cmp = compare of the instants (TAI ns, UTC through the step function of the IERS file), == iff same instant, exactly one of < == > and eq iff cmp = 0, antisymmetric, symmetric, transitive, min/max pick by instant, conversion of an operand into any uniform scale preserves its instant (and UTC->TAI->UTC is the identity).",
+    "note": "Trusted: Lean kernel + standard axioms; transcription of PartialEq/Ord for Epoch (post-fix: total order of durations, UTC operand converted toward the other scale) validated by correspondence. ET/TDB operands: not modelled here (f64 sin); their 100 ns clause rests on C07 and is exercised by the C07 stream.",
+}
+PROPS["C15"] = P(n_quick=30000, rule="series over all seven non-dynamical start scales, end possibly in another scale; steps 1 ns .. 1 century; spans that are multiples of the step, one ns either side, non-multiples; inclusive/exclusive; up to 300 (quick) / 20000 (thorough) items per series; observables: count, first three items, last item, strict increase, scale, None after the end")
+CLAIMS["C15"] = {
+    "text": "Theorem run_spec (induction on the number of next() calls, any start index): for every canonical positive step and canonical non-saturated span, n calls yield exactly the items start + k*step for k = c, c+1, ... (each computed from the start), as many as satisfy k*step < D (exclusive) or <= D (inclusive) in closed form, then nothing; items strictly increasing while representable; the stop test is exact even when k*step itself exceeds the representable range.",
+    "note": "Trusted: Lean kernel + standard axioms; transcription of TimeSeries::next; span = end - start is the C04-specified epoch difference (theorems there). Hypothesis: span strictly below Duration::MAX (a saturated span makes the inclusive series unbounded: outside the property's 'items representable' domain).",
+}
+PROPS["C16"] = P(rule="all 7x256 weekday+u8 / weekday-u8, 49 weekday pairs, 256 u8 and 256 i8 conversions exhaustively on every run; epochs at day edges (first/last ns, -50/-100/-238/-239/-500 ns) of random days of years 1-9999 in all seven scales, before and after 1900; next/previous (+ at midnight/noon)")
+CLAIMS["C16"] = {
+    "text": "Theorems: closed-form Z/7 laws for From<u8>, From<i8>, Weekday+Weekday, +u8, -u8 (never overflow, all values) and the weekday difference; the epoch weekday is (floor(days since the count's Monday origin)) mod 7 for EVERY canonical duration (constant over each civil day incl. first and last ns, negative durations too), anchored at 1900-01-01 = Monday with cross-checks; next/previous land exactly 1..7 whole days away on the requested weekday (TAI epochs, no bound hit).",
+    "note": "Trusted: Lean kernel + standard axioms; transcription of weekday.rs and weekday_in_time_scale/next/previous (post-fix integer day count). next/previous for non-TAI scales and the *_at_midnight/noon variants are covered by correspondence only; for UTC epochs a leap second inside the jump can move the TAI weekday edge (excluded from the verdict, stated).",
+}
+PROPS["C20"] = P(rule="u32 weeks incl. the saturation edge and u64 ns incl. >= one week; epochs at/after the reference (week starts/ends); the four ns counters with counts around 0, one century, u64::MAX and epochs either side of each GNSS reference in every scale")
+CLAIMS["C20"] = {
+    "text": "Theorems: from_time_of_week = clamp(week*7d + ns) for all inputs; to_time_of_week of any epoch at/after the reference is (val / W, val % W) with exact casts, unique, and the two are mutually inverse; ns counters round-trip exactly below one century and are an error from one century on, and for any epoch the counter is returned iff the elapsed time in that scale is in [0, 1 century) and then equals it.",
+    "note": "Trusted: Lean kernel + standard axioms; transcription of from/to_time_of_week and to_nanoseconds_in_time_scale. The day-of-year clause (f64) is exercised by the calendar checks (C08/C09 correspondence), not proved here.",
+}
 ALL = ["C%02d" % i for i in range(1, 21)]
 NOT_CLAIMED = {p: "model and theorems not built yet in this round (planned, see DESIGN.md §9)" for p in ALL if p not in CLAIMS}
